@@ -129,7 +129,7 @@ impl<'w> Gen for Gen07<'w> {
             3 => {
                 let len = self.m.input_of(it).len();
                 let offset = if rng.chance(1, 10) { len + rng.range(1, 4) } else { self.m.pick_boundary(rng, it, None) };
-                Op::SetOffset { it, offset }
+                gen_reset(rng, it, offset)
             }
             4 => Op::SetModeIter { it, mode: rng.below(self.m.n_modes(it)) },
             5 => {
@@ -413,7 +413,8 @@ impl<'w> Exec for Exec07<'w> {
                             Err(p) => panic_out(p),
                         }
                     }
-                    Op::SetOffset { offset, .. } => {
+                    Op::SetOffset { offset, .. } | Op::WithOffsetMid { offset, .. } => {
+                        let mid = matches!(op, Op::WithOffsetMid { .. });
                         let len = st.input.len();
                         if *offset <= len && !st.input.is_char_boundary(*offset) {
                             return StepOut::skipped();
@@ -430,7 +431,7 @@ impl<'w> Exec for Exec07<'w> {
                         } else {
                             "fault.reset_fwd"
                         });
-                        match guarded(|| st.it.set_offset(*offset)) {
+                        match guarded(|| if mid { st.it.with_offset_mid(*offset) } else { st.it.set_offset(*offset) }) {
                             Ok(()) => {
                                 st.last_end = None;
                                 st.count = 0;
